@@ -11,6 +11,7 @@ import OptreeModel.Properties.C07
 import OptreeModel.Lemmas.UpToAlign
 import OptreeModel.Lemmas.UpToSelf
 import OptreeModel.Properties.C01
+import OptreeModel.Properties.C03
 
 namespace Optree
 
@@ -311,5 +312,70 @@ theorem C05_map_compose (cfg : Cfg) (hreg : cfg.reg.OK) (hst : PredOnLeaves cfg)
   refine ⟨tg, by rw [C05_map_pure cfg g t ls sp h]; exact hu, ?_⟩
   rw [C05_map_pure cfg f tg (ls.map g) sp hf, C05_map_pure cfg (f ∘ g) t ls sp h]
   simp [List.map_map]
+
+
+/-! ### the with_path variant -/
+
+/-- **`tree_map_with_path(f, t, *rests)`**: the same as `tree_map`, and every call additionally receives, first, the
+path of its leaf: the i-th argument tuple is `(path_i, leaf_i, subs_1[i], …)` where `path_i` is the i-th path of
+`flatten_with_path` (= the i-th path of the treespec, `C03_paths_agree`) -/
+theorem C05_map_with_path_result (cfg : Cfg) (hreg : cfg.reg.OK) (hst : PredOnLeaves cfg) (f : UserFn) (t : PyObj)
+    (rests : List PyObj) (ht : t.wf = true) (ps : List (List Key)) (ls : List PyObj) (sp : Spec)
+    (h : flattenWithPath cfg t = .ok (ps, ls, sp)) (hpl : ps.length = ls.length)
+    (restLeaves : List (List PyObj)) (hrest : rests.mapM (flattenUpTo cfg.reg sp) = .ok restLeaves)
+    (hlen : ∀ l ∈ restLeaves, l.length = ls.length)
+    (rs : List PyObj)
+    (hcalls : (callAll f 0 ((List.range ls.length).map fun i =>
+        Arg.path ps[i]! :: (ls :: restLeaves).map fun l => Arg.obj l[i]!) [] []).1 = .ok rs)
+    (hleafy : ∀ x ∈ rs, LeafObj cfg x) :
+    ∃ r, (treeMapGen cfg .withPath false f t rests).result = .ok r ∧
+      (treeMapGen cfg .withPath false f t rests).log =
+        ((List.range ls.length).map fun i => Arg.path ps[i]! :: (ls :: restLeaves).map fun l => Arg.obj l[i]!) ∧
+      flatten cfg r = .ok (rs, sp) := by
+  have hflat : flatten cfg t = .ok (ls, sp) := by
+    rw [← C03_flatten_with_path_agrees cfg t ht, h]; rfl
+  have hcols := zipArgs_same_length ls restLeaves hlen
+  obtain ⟨hlog, hrl⟩ := C05_calls_in_order f _ rs hcalls
+  have hrl' : rs.length = ls.length := by simpa using hrl
+  obtain ⟨r, hu, hf⟩ := C01_replace_leaves cfg hreg hst t ht ls sp hflat rs hrl' hleafy
+  have hargs : (List.range (min (ps.map fun p => [Arg.path p]).length (zipArgs (ls :: restLeaves)).length)).map
+      (fun i => (ps.map fun p => [Arg.path p])[i]! ++ ((zipArgs (ls :: restLeaves))[i]!).map Arg.obj) =
+      (List.range ls.length).map fun i => Arg.path ps[i]! :: (ls :: restLeaves).map fun l => Arg.obj l[i]! := by
+    rw [hcols]
+    simp only [List.length_map, List.length_range, hpl, Nat.min_self]
+    apply List.map_congr_left
+    intro i hi
+    have hi' : i < ls.length := by simpa using hi
+    have hi'' : i < ps.length := by omega
+    simp [hi', hi'', List.map_map, Function.comp_def]
+  refine ⟨r, ?_, ?_, hf⟩
+  · unfold treeMapGen
+    simp only [h, hrest, hargs]
+    cases hc : callAll f 0 ((List.range ls.length).map fun i =>
+        Arg.path ps[i]! :: (ls :: restLeaves).map fun l => Arg.obj l[i]!) [] [] with
+    | mk res log =>
+      rw [hc] at hcalls
+      simp only at hcalls
+      subst hcalls
+      simp [hu]
+  · unfold treeMapGen
+    simp only [h, hrest, hargs]
+    cases hc : callAll f 0 ((List.range ls.length).map fun i =>
+        Arg.path ps[i]! :: (ls :: restLeaves).map fun l => Arg.obj l[i]!) [] [] with
+    | mk res log =>
+      rw [hc] at hcalls hlog
+      simp only at hcalls hlog
+      subst hcalls
+      simp [hlog]
+
+
+/-- **the underscore variants make the same calls**: the call log of `tree_map_` / `tree_map_with_path_` /
+`tree_map_with_accessor_` is the call log of the variant without underscore, whatever happens -/
+theorem C05_inplace_same_calls (cfg : Cfg) (variant : MapVariant) (f : UserFn) (t : PyObj) (rests : List PyObj) :
+    (treeMapGen cfg variant true f t rests).log = (treeMapGen cfg variant false f t rests).log := by
+  unfold treeMapGen
+  simp only
+  repeat' split
+  all_goals first | rfl | simp_all
 
 end Optree
